@@ -97,6 +97,19 @@ func c20sequential(c *fw.Ctx) {
 		c.Count("snapshots_compared", 1)
 		return true
 	}
+	// read schedule: a read every `gap` writes starting at a random offset, so that consecutive reads are separated by
+	// 1, a few, capacity-1, exactly capacity, capacity+1 or exactly 2*capacity writes; the boundary reads are extra
+	gaps := []int{257, capacity, 1, 2 * capacity, capacity - 1, 64, capacity + 1, capacity / 2}
+	gap := gaps[(c.Idx/len(totals))%len(gaps)]
+	if gap == 1 && total > capacity+1 {
+		gap = 17
+	}
+	off := r.Intn(gap)
+	boundaryReads := r.Intn(2) == 0
+	gapName := map[int]string{capacity: "capacity", 2 * capacity: "2xcapacity", 1: "1"}[gap]
+	if gapName != "" {
+		c.Count("read_gap:"+gapName, 1)
+	}
 	for i := 0; i < total; i++ {
 		if deriveAt[i] {
 			derive(i)
@@ -115,7 +128,7 @@ func c20sequential(c *fw.Ctx) {
 			loggers[li].Error(id)
 		}
 		written = append(written, id)
-		if i%257 == 0 || i == total-1 || i == capacity-1 || i == capacity {
+		if i%gap == off || i == total-1 || (boundaryReads && (i == capacity-1 || i == capacity)) {
 			if !check(fmt.Sprintf("after write %d of %d", i+1, total)) {
 				return
 			}
@@ -364,7 +377,7 @@ func init() {
 			"made of written ids, per-writer newest-first. Race reports are violations. non-trivial = history with at least one derived logger (sequential) / every concurrent run",
 		Cases: func(tier string) int { s, cc := c20layout(tier); return s + cc },
 		Run:   runC20,
-		Floors: map[string]int64{"sequential_histories": 4500, "snapshots_compared": 10000, "derived_loggers": 5000, "histories_above_capacity": 1500, "concurrent_runs": 200, "concurrent_runs_above_capacity": 50,
+		Floors: map[string]int64{"sequential_histories": 4500, "read_gap:capacity": 300, "read_gap:2xcapacity": 300, "read_gap:1": 200, "snapshots_compared": 10000, "derived_loggers": 5000, "histories_above_capacity": 1500, "concurrent_runs": 200, "concurrent_runs_above_capacity": 50,
 			"concurrent_runs_with_snapshots": 90, "entries_written": 3000000},
 		Assumptions: []string{"capacity is read from the exported constant logging.BufferSize", "a case in which writers or GetLogs/WriteLogs do not return for 120 s (normal: milliseconds) is reported as a violation: the buffer no longer returns its entries", "race freedom = no report from the Go race detector on the interleavings that occurred"},
 	})
